@@ -327,6 +327,12 @@ pub fn closurize_rec_record<C: Cache>(
 }
 
 fn mk_binding_type(field_deps: Option<FieldDeps>) -> BindingType {
+    #[cfg(feature = "verif-hooks")]
+    let field_deps = if crate::verif_hooks::deps_unknown() {
+        None
+    } else {
+        field_deps
+    };
     // If the fields has an empty set of dependencies, we can eschew the useless introduction of a
     // revertible element. Note that `field_deps` being `None` doesn't mean "empty dependencies"
     // but rather that the dependencies haven't been computed. In the latter case, we must be
